@@ -132,6 +132,16 @@ func callLib(c *rux.Context, name string) {
 		handlers.Timeout(-time.Second)(c) // the deadline has passed before the handlers below start
 	case "timeout-idle":
 		handlers.Timeout(time.Hour)(c)
+	case "text200":
+		c.Text(200, "abc")
+	case "html200-empty":
+		c.HTML(200, nil)
+	case "json201":
+		c.JSON(201, rux.M{"a": 1})
+	case "jsonbytes200":
+		c.JSONBytes(200, []byte("{}"))
+	case "nocontent":
+		c.NoContent()
 	default:
 		fatal("unknown lib middleware %q", name)
 	}
